@@ -84,11 +84,10 @@ def check_lfric_omp_guards(idx, run):
             npaths += 1
             if any(n is gnode for n, _ in path):
                 continue
-            exempt = [ast.unparse(n.ast.test) for n, lab in path
-                      if n.kind == "test" and isinstance(n.ast, ast.If) and
-                      lab == "false" and
-                      "VALID_DISCONTINUOUS_NAMES" in ast.unparse(n.ast.test)
-                      and " not in " in ast.unparse(n.ast.test)]
+            # no exemption: the function space of the loop is that of one
+            # updated argument (possibly an operator on w3) and says nothing
+            # about the other arguments (fix a8292e5)
+            exempt = []
             if not exempt:
                 bad.append([ast.unparse(n.ast.test)[:40] for n, lab in path
                             if n.kind == "test"])
@@ -103,12 +102,13 @@ def check_lfric_omp_guards(idx, run):
               "VALID_DISCONTINUOUS_NAMES" in ast.unparse(n.ast.test)]
         for node in ex:
             txt = ast.unparse(node.ast.test)
-            run.check("C23.R1", txt.endswith(
-                "field_space.orig_name not in "
-                "const.VALID_DISCONTINUOUS_NAMES"), cons,
-                "exemption only for discontinuous spaces",
-                f"the colouring requirement is waived under '{txt}'",
-                loc(mod, node.ast))
+            run.check("C23.R1", False, cons,
+                      "no exemption by the loop's function space",
+                      f"the colouring requirement is waived under '{txt}': "
+                      f"a kernel that writes an operator on w3 and "
+                      f"increments a field on w1 has a loop on w3; its "
+                      f"un-coloured loop would be parallelised",
+                      loc(mod, node.ast))
         # the guard precedes the forced generic validate
         sup = [n for n in cfg.stmt_nodes() if n.kind == "stmt" and
                "super().validate" in ast.unparse(n.ast)]
